@@ -209,6 +209,56 @@ deriving DecidableEq, Repr
 structure IssueExt where
   parseDuration : List Char → Int × Option Err
 
+/-! ### cmd/keymasterd/jwt.go: the verifiers of signed tokens -/
+
+/-- `authInfoJWT`, the claims of a session cookie / CLI token (numeric claims are `int64` seconds) -/
+structure authInfoJWT where
+  Issuer : Str
+  Subject : Str
+  Audience : List Str
+  Expiration : Int
+  NotBefore : Int
+  IssuedAt : Int
+  TokenType : Str
+  AuthType : Int
+deriving DecidableEq, Repr, Inhabited
+
+/-- `storageStringDataJWT` -/
+structure storageStringDataJWT where
+  Issuer : Str
+  Subject : Str
+  Audience : List Str
+  NotBefore : Int
+  Expiration : Int
+  IssuedAt : Int
+  TokenType : Str
+  DataType : Int
+  Data : Str
+deriving DecidableEq, Repr, Inhabited
+
+/-- `authInfo` with its two times as the signed seconds they are built from (`time.Unix(s, 0)`) -/
+structure authInfoZ where
+  Username : Str
+  AuthType : Int
+  ExpiresAt : Int
+  IssuedAt : Int
+deriving DecidableEq, Repr, Inhabited
+
+/-- externals of the verifiers: the list of signature algorithms of the deployment's keys, `jwt.ParseSigned` (syntax
+and the `alg` header against the list it is given), `RuntimeState.JWTClaims` (tries every deployment key; yields claims
+only when one verifies the signature) and the issuer string.  `α` = algorithm lists, `τ` = parsed tokens: opaque. -/
+structure JwtExt where
+  verifierList : List Nat × Option Err
+  parseSigned : Str → List Nat → Nat × Option Err
+  authClaims : Nat → authInfoJWT × Option Err
+  storageClaims : Nat → storageStringDataJWT × Option Err
+  issuer : Str
+  /-- `publicToPreferedJoseSigAlgo(state.Signer.Public())`, `jose.NewSigner` for the deployment's own signer -/
+  signerAlgo : Nat × Option Err
+  newSigner : Nat × Option Err
+  /-- `jwt.Signed(signer).Claims(c).Serialize()`: the serialisation of the claims signed by the deployment's signer -/
+  resign : authInfoJWT → Str × Option Err
+
 /-! ### cmd/keymasterd `consumeLoginChallenge` -/
 
 /-- `localUserData`: the pending challenge of a user; the two challenge pointers are compared by identity (numbers
